@@ -431,7 +431,21 @@ def resolve_source(events, upto, loc, depth=8):
             src = e2[3]
     if src is None:
         return "?" + loc
-    m = re.match(r"(?:move |copy |&(?:mut )?)(_\d+)(?: as [^()]*\(PointerCoercion\([^)]*\)\))?$", src.strip())
+    st = src.strip()
+    m = re.match(r"(?:move |copy |&(?:mut )?)(_\d+)(?: as [^()]*\(PointerCoercion\([^)]*\)\))?$", st)
+    if not m:
+        m = re.match(r"(?:move |copy |&(?:mut )?)\(\((_\d+) as \w+\)\.\d+: [^)]*\)$", st)          # enum payload projection
+    if not m:
+        m = re.match(r"(?:Result::<.*>::Ok|Option::<.*>::Some)\((?:move|copy) (_\d+)\)$", st)   # Ok(x) / Some(x)
+    if not m:
+        m = re.match(r"&(?:mut )?\(\*(_\d+)\)$", st)                                           # reborrow
+    if not m:
+        m = re.match(r"(?:move |copy )\(\*(_\d+)\)$", st)                                      # deref copy
+    if not m:
+        m = re.match(r"(?:Ne|Eq|Lt|Le|Gt|Ge|BitAnd|BitOr|BitXor|Add|Sub|Not)\((?:move|copy) (_\d+)", st)   # derived scalar: follow the first operand
+    if not m and not re.match(r"CALL |[A-Z]\w*(::|\(| \{)|const ", st):
+        # projections / casts / derefs of a base local: ((_229.0: T).0: U) as *const X (Transmute), copy (*_80), ...
+        m = re.match(r"(?:move |copy |&(?:mut )?)?[(*&]*(_\d+)", st)
     if m and depth > 0:
         return resolve_source(events, upto, m.group(1), depth - 1)
     return src
@@ -1718,4 +1732,205 @@ def component_options(ctx, mir, stats):
         obs.append({"id": "Component::%s:skipped-field-not-%s" % (meth, "written" if meth == "write" else "counted"), "ok": (not r) and r0, "functions": [g.name],
                     "detail": "a field named by an earlier SkipField is passed over; every other field is %s" % ("written" if meth == "write" else "counted") if ((not r) and r0) else "skip handling changed in Component::%s" % meth,
                     "where": g.name, "needs_native": True, "native": None if ((not r) and r0) else COMPONENT_NATIVE})
+    return obs
+
+
+# --------------------------------------------------------------------------
+# C11: input event mapping and one PDU per event through the layers
+# --------------------------------------------------------------------------
+def input_mapping(ctx, mir, stats):
+    g = find_fn(mir, r"^client::<impl at src/core/client\.rs[^>]*>::write$")
+    se = SymExec(g, stats).run()
+    obs = []
+    seen = set()
+    for p in se.finished + [a[0] for a in se.asserts]:
+        for i, ev in calls_on(p.events, r"^ts_pointer_event$|^ts_keyboard_event$"):
+            kind = "pointer" if "pointer" in ev[2] else "key"
+            vals = []
+            for a in ev[4]:
+                loc = re.sub(r"^(move|copy) ", "", a).strip()
+                vals.append(p.env.get("((%s as Some).0: u16)" % loc))
+            if any(v is None for v in vals):
+                obs.append({"id": "RdpClient::write:%s-args-encodable" % kind, "ok": False, "functions": [g.name], "detail": "arguments of %s are not Some(<u16 expression>)" % ev[2], "needs_native": True})
+                continue
+            evl = next((e[2].strip() for e in p.events if e[0] == "assign" and re.search(r"\(_2 as (Pointer|Key)\)\.0:", e[3])), None)
+            if evl is None:
+                raise Inconclusive("ENCODING-FAILED: event payload local not found")
+            if kind == "pointer":
+                btn = p.env.get("discr(%s.2)" % evl)
+                down = p.env.get("%s.3" % evl)
+                x = p.env.get("%s.0" % evl)
+                y = p.env.get("%s.1" % evl)
+                if btn is None or down is None or x is None or y is None:
+                    raise Inconclusive("ENCODING-FAILED: pointer event fields not recognised (%s)" % [k for k in p.env if "_4" in k])
+                b32 = z3.Extract(7, 0, btn)
+                exp = z3.If(b32 == 1, z3.BitVecVal(0x1000, 16), z3.If(b32 == 2, z3.BitVecVal(0x2000, 16), z3.If(b32 == 3, z3.BitVecVal(0x4000, 16), z3.BitVecVal(0x0800, 16))))
+                exp = exp | z3.If(down == 1, z3.BitVecVal(0x8000, 16), z3.BitVecVal(0, 16))
+                bad = z3.Or(vals[0] != exp, vals[1] != x, vals[2] != y)
+                what = "flags = button(Left 0x1000 / Right 0x2000 / Middle 0x4000 / none MOVE 0x0800) | (down ? 0x8000 : 0); x and y unchanged"
+            else:
+                down = p.env.get("%s.1" % evl)
+                code = p.env.get("%s.0" % evl)
+                if down is None or code is None:
+                    raise Inconclusive("ENCODING-FAILED: keyboard event fields not recognised")
+                exp = z3.If(down == 1, z3.BitVecVal(0, 16), z3.BitVecVal(0x8000, 16))
+                bad = z3.Or(vals[0] != exp, vals[1] != code)
+                what = "flags = (down ? 0 : KBDFLAGS_RELEASE 0x8000); scancode unchanged"
+            verdict, mdl, smt = se.check(p, [bad], "event mapping")
+            if (kind, str(p.trace[:6]), verdict) in seen:
+                continue
+            seen.add((kind, str(p.trace[:6]), verdict))
+            cvc5_check(smt, verdict, stats)
+            obs.append({"id": "RdpClient::write:%s-mapping[%s]" % (kind, ev[1]), "ok": verdict == "unsat", "functions": [g.name],
+                        "detail": ("for every submitted value: " + what) if verdict == "unsat" else "submitted event %s is transmitted with different values" % mdl, "cex": mdl, "where": g.name, "path": p.trace,
+                        "needs_native": False})
+    if not obs:
+        raise Inconclusive("ENCODING-FAILED: no ts_pointer_event/ts_keyboard_event call found")
+    return obs
+
+
+def _single_downstream(mir, stats, fn_regex, callee_regex, what, extra=None):
+    fs = find_fn(mir, fn_regex, unique=False)
+    if "link" in fn_regex:
+        fs = [x for x in fs if "&dyn" in x.header]
+    if len(fs) != 1:
+        raise Inconclusive("ENCODING-FAILED: %s matched %d functions" % (fn_regex, len(fs)))
+    f = fs[0]
+    se = SymExec(f, stats, max_paths=5000).run()
+    obs = []
+    counts = set()
+    for p in se.finished:
+        n = len(calls_on(p.events, callee_regex))
+        ret = _last_assign_to_ret(p) or ""
+        counts.add(n)
+        if n == 0:
+            ok = bool(re.search(r"Err\(|from_residual", ret))
+            obs.append({"id": "%s:no-write=>error" % what, "ok": ok, "functions": [f.name], "detail": "a path that sends nothing returns an error" if ok else "a path returns `%s` without sending" % ret[:60], "where": f.name})
+        elif n > 1:
+            obs.append({"id": "%s:at-most-one-write" % what, "ok": False, "functions": [f.name], "detail": "%d downstream writes on one path (duplicate transmission)" % n, "path": p.trace, "where": f.name})
+    obs.append({"id": "%s:one-downstream-write" % what, "ok": 1 in counts and max(counts) <= 1, "functions": [f.name], "detail": "every path makes at most one downstream write (%s), and one path does" % sorted(counts), "where": f.name})
+    for b in call_blocks(f, callee_regex):
+        rs = result_switch(f, b)
+        prop = _returns_call_result(f, b)
+        if not prop and rs:
+            sw, tg = rs
+            # `?`: the error edge leads to from_residual into _0
+            errb = tg.get("1")
+            prop = errb is not None and any(re.search(r"^_0 = <Result<.*as FromResidual", (f.blocks[n].term or "")) for n in bfs_reach(f, errb) if f.blocks[n].t and f.blocks[n].t["kind"] == "call")
+        obs.append({"id": "%s:error-propagated[%s]" % (what, b), "ok": bool(prop), "functions": [f.name], "detail": "the downstream write's error is returned to the caller" if prop else "the downstream write's result is dropped", "where": f.name})
+    if extra:
+        obs += extra(f, se)
+    return obs
+
+
+def one_pdu_per_event(ctx, mir, stats):
+    obs = []
+
+    def one_event(f, se):
+        out = []
+        for p in se.finished:
+            if not calls_on(p.events, r"write_data_pdu"):
+                continue
+            ne = len(calls_on(p.events, r"^ts_input_event$"))
+            npush = len(calls_on(p.events, r"Vec::<Box<dyn Message>>::push$"))
+            out.append({"id": "write_input_event:one-event-per-pdu", "ok": ne == 1 and npush == 1, "functions": [f.name], "detail": "the input PDU carries exactly one slow-path input event" if (ne == 1 and npush == 1) else "%d events / %d pushes" % (ne, npush), "where": f.name})
+        return out
+    G = r"^global::<impl at src/core/global\.rs[^>]*>::"
+    obs += _single_downstream(mir, stats, G + r"write_input_event$", r"write_data_pdu", "write_input_event", one_event)
+    obs += _single_downstream(mir, stats, G + r"write_data_pdu$", r"global::Client::write_pdu", "write_data_pdu")
+    obs += _single_downstream(mir, stats, G + r"write_pdu$", r"mcs::Client::<S>::write(::<.*>)?$", "write_pdu")
+    obs += _single_downstream(mir, stats, r"^mcs::<impl at src/core/mcs\.rs[^>]*>::write$", r"x224::Client::<S>::write(::<.*>)?$", "mcs::write")
+    obs += _single_downstream(mir, stats, r"^x224::<impl at src/core/x224\.rs[^>]*>::write$", r"tpkt::Client::<S>::write", "x224::write")
+    obs += _single_downstream(mir, stats, r"^tpkt::<impl at src/core/tpkt\.rs[^>]*>::write$", r"Link::<S>::write$", "tpkt::write")
+    obs += _single_downstream(mir, stats, r"^link::<impl at src/model/link\.rs[^>]*>::write$", r"Stream::<S>::write$", "Link::write")
+    return obs
+
+
+# --------------------------------------------------------------------------
+# C10: fast-path bitmap rectangles -> callback
+# --------------------------------------------------------------------------
+BITMAP_FIELDS = [("dest_left", "destLeft"), ("dest_top", "destTop"), ("dest_right", "destRight"), ("dest_bottom", "destBottom"), ("width", "width"), ("height", "height"),
+                 ("bpp", "bitsPerPixel"), ("is_compress", "flags"), ("data", "bitmapDataStream")]
+
+
+def bitmap_dispatch(ctx, mir, stats):
+    f = find_fn(mir, r"^global::<impl at src/core/global\.rs[^>]*>::read_fast_path$")
+    obs = []
+    cb = call_blocks(f, r"as FnMut<\(RdpEvent,\)>>::call_mut$|FnMut.*call_mut")
+    nxt = call_blocks(f, r"as Iterator>::next$")
+    if len(cb) != 1 or len(nxt) != 2:
+        raise Inconclusive("ENCODING-FAILED: read_fast_path: callback call sites %s, iterator loops %s" % (cb, nxt))
+    # inner loop = the `next` from which the callback is reachable without passing the other one
+    inner = [n for n in nxt if cb[0] in bfs_reach(f, n, removed_nodes=set(nxt) - {n})]
+    if len(inner) != 1:
+        raise Inconclusive("ENCODING-FAILED: rectangle loop not recognised")
+    inner = inner[0]
+    outer = [n for n in nxt if n != inner][0]
+    # exactly once per rectangle: from the callback, the callback is reachable again only through the inner loop head
+    again = fp_reachable(f, dict(f.blocks[cb[0]].t["targets"])["return"], cb[0], stats, removed_nodes={inner})
+    obs.append({"id": "read_fast_path:one-callback-per-rectangle", "ok": not again, "functions": [f.name],
+                "detail": "between two iterations of the rectangle loop the callback is invoked at most once" if not again else "the callback can be invoked twice for one rectangle", "where": f.name})
+    # every Some(rectangle) iteration that passes the casts reaches the callback: no path from the inner `Some` edge back to the loop head that avoids the callback except error returns
+    rs = result_switch(f, inner)
+    if not rs:
+        raise Inconclusive("ENCODING-FAILED: rectangle iterator result not matched")
+    sw, tg = rs
+    some_t = tg.get("1")
+    skip = fp_reachable(f, some_t, inner, stats, removed_nodes={cb[0]})
+    obs.append({"id": "read_fast_path:no-rectangle-skipped", "ok": not skip, "functions": [f.name],
+                "detail": "a rectangle taken from the update either reaches the callback or ends the call with an error: none is silently skipped" if not skip else "the loop can move to the next rectangle without invoking the callback",
+                "where": f.name})
+    # only the bitmap update kind leads to the callback
+    se = SymExec(f, stats, loop_bound=1, max_paths=20000).run()
+    done = False
+    for p in se.finished + [a[0] for a in se.asserts]:
+        cc = calls_on(p.events, r"call_mut$")
+        if not cc:
+            continue
+        i, ev = cc[0]
+        agg = [(k, e) for k, e in enumerate(p.events[:i]) if e[0] == "assign" and e[3].startswith("BitmapEvent {")]
+        if not agg:
+            continue
+        k, e = agg[-1]
+        fields = dict(re.findall(r"(\w+): ((?:move|copy) [^,}]+)", e[3]))
+        bad = []
+        for fld, key in BITMAP_FIELDS:
+            src = resolve_source(p.events, k, fields.get(fld, "?"), depth=14)
+            consts = set(re.findall(r'const "(\w+)"', src))
+            if consts != {key}:
+                bad.append((fld, sorted(consts)))
+        obs.append({"id": "read_fast_path:field-mapping", "ok": not bad, "functions": [f.name],
+                    "detail": "each BitmapEvent field is taken from the rectangle field of the same meaning (destLeft..bitmapDataStream)" if not bad else "fields wired to other wire fields: %s" % bad, "where": f.name})
+        # compression flag: is_compress == (flags & 0x0001 != 0)
+        loc = re.sub(r"^(move|copy) ", "", fields.get("is_compress", "")).strip()
+        v = p.env.get(loc)
+        flags = [val for kk, val in p.env.items() if kk.startswith("((") and kk.endswith("as Continue).0: u16)")]
+        okc = False
+        if v is not None and flags:
+            for fl in flags:
+                s = z3.Solver()
+                for c in p.cond:
+                    s.add(c)
+                s.add((v == 1) != ((fl & 1) != 0))
+                if s.check() == z3.unsat:
+                    okc = True
+            stats.queries += len(flags)
+        obs.append({"id": "read_fast_path:compression-flag", "ok": okc, "functions": [f.name], "detail": "is_compress is exactly bit 0 (BITMAP_COMPRESSION) of the rectangle's flags" if okc else "is_compress is not (flags & 1 != 0)", "where": f.name})
+        # the update type on this path is the bitmap type
+        done = True
+        break
+    if not done:
+        raise Inconclusive("ENCODING-FAILED: no explored path reaches the callback")
+    # update kinds: the switch on fp_type: callback reachable only from the Bitmap label
+    for n in f.order:
+        b = f.blocks[n]
+        if b.cleanup or not b.t or b.t["kind"] != "switch":
+            continue
+        if any(re.search(r"discriminant\(\(_\d+\.0: core::global::FastPathUpdateType\)\)", s) for s in b.stmts):
+            labs = dict(b.t["targets"])
+            reach = [l for l, t in labs.items() if cb[0] in bfs_reach(f, t, removed_nodes={outer})]
+            obs.append({"id": "read_fast_path:only-bitmap-updates-dispatch", "ok": reach == ["1"], "functions": [f.name],
+                        "detail": "only FASTPATH_UPDATETYPE_BITMAP (1) leads to the callback; other kinds go on to the next update" if reach == ["1"] else "update kinds reaching the callback: %s" % reach, "where": f.name})
+            others = [l for l, t in labs.items() if l != "1" and outer not in bfs_reach(f, t) and not any(f.blocks[x].t["kind"] == "return" for x in bfs_reach(f, t))]
+            obs.append({"id": "read_fast_path:other-kinds-continue", "ok": not others, "functions": [f.name], "detail": "every other update kind continues with the next update" if not others else "kinds %s neither continue nor return" % others, "where": f.name})
     return obs
